@@ -11,7 +11,7 @@ From Pygls Require Export Base.Unicode.
 Open Scope N_scope.
 
 (* ---------- outcomes ---------- *)
-Inductive exn := ValueError | UnicodeEncodeError.
+Inductive exn := ValueError | UnicodeEncodeError | PlainException.   (* PlainException: raise Exception(...) *)
 Inductive outcome (A : Type) := Ret (a : A) | Raise (e : exn).
 Arguments Ret {A} a.
 Arguments Raise {A} e.
@@ -334,3 +334,49 @@ Definition text_document_path (u : list N) : outcome (list N) :=
 Definition approx_uri (u : list N) : bool :=
   let '(_, url2) := split_scheme (remove_unsafe (lstrip_c0 u)) in
   approx_netloc (fst (split_netloc url2)).
+
+(* =====================================================================================
+   Extension: uri_with, and the IS_WIN branches as a parameter (is_win = false is the code
+   above; the equalities are in Proofs/UrisExt.v).
+   ===================================================================================== *)
+Definition BSLASH : N := 92.
+(* str.replace(a, b) for single characters *)
+Definition replace_char (a b : N) (s : list N) : list N := map (fun c => if c =? a then b else c) s.
+
+(* _normalize_win_path: "if IS_WIN: path = path.replace("\\", "/")" comes first *)
+Definition normalize_win_path_gen (is_win : bool) (path : list N) : list N * list N :=
+  normalize_win_path (if is_win then replace_char BSLASH SLASH path else path).
+
+Definition from_fs_path_gen (is_win : bool) (p : option (list N)) : outcome (option (list N)) :=
+  match p with
+  | None => Ret None
+  | Some path =>
+    let '(path', netloc) := normalize_win_path_gen is_win path in
+    bind (urlunparse s_file netloc path' [] [] []) (fun u => Ret (Some u))
+  end.
+
+(* to_fs_path: "if IS_WIN: value = value.replace("/", "\\")" just before "return value" *)
+Definition to_fs_path_gen (is_win : bool) (uri : option (list N)) : outcome (option (list N)) :=
+  bind (to_fs_path uri) (fun r =>
+  Ret (match r with
+       | Some value => Some (if is_win then replace_char SLASH BSLASH value else value)
+       | None => None
+       end)).
+
+(* "a or b" on strings, a possibly not given *)
+Definition or_str (a : option (list N)) (b : list N) : list N :=
+  match a with Some x => if nonempty x then x else b | None => b end.
+
+(* uri_with: the old parts, then "path is None -> raise Exception", the authority that
+   _normalize_win_path splits off the new path is discarded ("path, _ = ...") *)
+Definition uri_with_gen (is_win : bool) (uri : list N)
+    (scheme netloc path params query fragment : option (list N)) : outcome (list N) :=
+  bind (urlparse uri) (fun '(o_scheme, o_netloc, o_path, o_params, o_query, o_fragment) =>
+  match path with
+  | None => Raise PlainException
+  | Some p =>
+    let '(p', _) := normalize_win_path_gen is_win p in
+    urlunparse (or_str scheme o_scheme) (or_str netloc o_netloc) (if nonempty p' then p' else o_path)
+               (or_str params o_params) (or_str query o_query) (or_str fragment o_fragment)
+  end).
+Definition uri_with := uri_with_gen false.
